@@ -114,7 +114,8 @@ AddMany(b) ==
   ELSE IF \E i \in DOMAIN added : host[added[i]] = -1
   THEN /\ UNCHANGED <<tab, mvars>> /\ Obs(E(Res("valueerror", <<>>, 0, <<>>))) \* URLInfo.parse, rollback
   ELSE /\ tab' = r[1] /\ ids' = r[2] /\ strs' = s1
-       /\ hosts' = InsAll(hosts, HostList(added))
+       \* only the URLs a crawl is started with (no properties, or level none / 0) define permitted hosts
+       /\ hosts' = InsAll(hosts, HostList(SelectSeq(added, LAMBDA u : \E i \in DOMAIN b : b[i].u = u /\ (~b[i].hp \/ b[i].lv <= 0))))
        /\ qc' = qc + Len(added)
        /\ UNCHANGED <<files, visits>>
        /\ Obs(E(Res("ok", <<>>, 0, added)))
